@@ -192,3 +192,12 @@ pub proof fn lemma_uniq_rows_first_occurrences(seen: Set<ContextKey>, r: Seq<Con
         }
     }
 }
+
+// C03, end to end: the chain that go() starts and then feeds is the documented pipeline in front of the printer, and the printer has
+// been started with the selection names (none behind --group-by / --merge) — Process::start cannot change what the chain computes
+pub proof fn lemma_started_chain_is_the_pipeline(q: Box<dyn Process>, p: Box<dyn Process>, s: Box<dyn Process>, cli: Cli, v: Map<String, JsonValue>, m: Map<String, Rc<dyn Get>>, rows: Seq<Context>)
+    requires is_pipeline_of(q, p, cli, v, m), started_from(q, s),
+    ensures s.fut(rows) == p.sfut(cli.titles(Seq::empty()), cli.pipeline(cli.no_set(), v, m, rows)), // @obl THY.C03.started_chain_is_the_pipeline : C03 C08 C09 C15 C10 C07
+{
+    assert(s.fut(rows) == q.sfut(Seq::empty(), rows));
+}
